@@ -26,7 +26,7 @@ def load_csv(csv_path: str) -> np.array:
     logger.info("Loading file: %s ...", csv_path)
 
     try:
-        csv = np.loadtxt(csv_path, delimiter=",")
+        csv = np.loadtxt(csv_path, delimiter=",", ndmin=2)
 
     except OSError as e:
         logger.error(e)
@@ -54,7 +54,7 @@ def load_txt(txt_path: str) -> np.array:
     logger.info("Loading file: %s...", txt_path)
 
     try:
-        txt = np.loadtxt(txt_path, delimiter=" ")
+        txt = np.loadtxt(txt_path, delimiter=" ", ndmin=2)
 
     except OSError as e:
         logger.error(e)
